@@ -10,7 +10,7 @@ use serde_json::{json, Value};
 use vph::fgen;
 use vph::refdec;
 
-pub const RULE: &str = "(1) for each file of the damage corpus (crate-encoded mono/stereo/multichannel files with and without seek table and with unknown total; fgen-built files covering verbatim/constant/fixed/LPC subframes, wasted bits, escaped partitions, 5-bit Rice method, variable blocking and all stereo modes): EVERY single-bit flip at or after the first frame byte and EVERY truncation length, decoded through 4 reader front-ends + verify_reader, plus every bit of the stored MD5; (2) every must-reject class (bad sync, reserved header bit, reserved/illegal block-size, rate, channel, depth codes, malformed coded numbers, wrong CRC-8/CRC-16, header fields inconsistent with STREAMINFO, frame exceeding the declared total, subframe pad bit, reserved subframe types, wasted bits ≥ depth, precision 1111, negative shift, reserved coding methods, illegal partition orders, non-final blocks of 1..14 samples in fixed- and variable-blocksize streams) generated with valid checksums in frame 0 and in the last frame of the plain stream and of every stream within 2 (thorough 4) valid deviations; oracle: Ok ⇒ the independent decoder accepts the altered bytes with the same PCM; Err ⇒ samples delivered before it are a whole-frame prefix of the original and contain nothing of a must-reject frame; MD5Match only if the decoded PCM hashes to the stored digest, NoMD5 only for bytes the independent decoder accepts (the corpus holds files without a stored digest)";
+pub const RULE: &str = "(3) STREAMINFO contradictions: two-frame streams of 1..8 independent channels and the three stereo decorrelations at 8/16/24 bits whose STREAMINFO channel count is overwritten with every other value 1..8, depth with 10 other values, rate with 6 other values (checksums valid): nothing may be delivered; (1) for each file of the damage corpus (crate-encoded mono/stereo/multichannel files with and without seek table and with unknown total; fgen-built files covering verbatim/constant/fixed/LPC subframes, wasted bits, escaped partitions, 5-bit Rice method, variable blocking and all stereo modes): EVERY single-bit flip at or after the first frame byte and EVERY truncation length, decoded through 4 reader front-ends + verify_reader, plus every bit of the stored MD5; (2) every must-reject class (bad sync, reserved header bit, reserved/illegal block-size, rate, channel, depth codes, malformed coded numbers, wrong CRC-8/CRC-16, header fields inconsistent with STREAMINFO, frame exceeding the declared total, subframe pad bit, reserved subframe types, wasted bits ≥ depth, precision 1111, negative shift, reserved coding methods, illegal partition orders, non-final blocks of 1..14 samples in fixed- and variable-blocksize streams) generated with valid checksums in frame 0 and in the last frame of the plain stream and of every stream within 2 (thorough 4) valid deviations; oracle: Ok ⇒ the independent decoder accepts the altered bytes with the same PCM; Err ⇒ samples delivered before it are a whole-frame prefix of the original and contain nothing of a must-reject frame; MD5Match only if the decoded PCM hashes to the stored digest, NoMD5 only for bytes the independent decoder accepts (the corpus holds files without a stored digest)";
 pub const ASSUMPTIONS: &[&str] = &["damage limited to one bit flip or one truncation per file; two simultaneous malformations only as (malformation × valid deviation)", "codes a decoder may but need not reject (non-zero padding, residual = -2^31, out-of-range reconstructed samples, a non-final block of exactly 15 samples, zero-length first partition) impose no verdict; non-final blocks of <= 14 samples must be rejected (the crate's short-block rule)"];
 pub fn bounds(quick: bool) -> Value {
     json!({"corpus_files": crate::corpus::damage_corpus(false).len(), "bit_flips": "every bit from the first frame byte on", "truncations": "every length", "malformed_pairs": if quick { "bad × ≤2 valid deviations" } else { "bad × ≤4 valid deviations" }})
@@ -220,7 +220,91 @@ pub fn run(ctx: &Ctx, acc: &mut Acc) {
             }
         }
     });
+    streaminfo_contradictions(ctx, acc);
     acc.sample(json!({"kind":"damage","file":"enc-ch1-bps16-seek0","how":"flip","at":4000}));
+}
+
+/// (3) every frame of a checksum-valid stream contradicts STREAMINFO: the channel count, depth or rate field of the
+/// STREAMINFO block is overwritten with every other value; nothing may be delivered (bad_from = frame 0).
+fn streaminfo_contradictions(ctx: &Ctx, acc: &mut Acc) {
+    use vph::fgen::{plain_frame, plain_stream, Assign, Md5Spec};
+    let mut bases: Vec<(u8, u8, Assign)> = Vec::new();
+    for bps in [8u8, 16, 24] {
+        for ch in 1..=8u8 {
+            bases.push((ch, bps, Assign::Independent));
+        }
+        for a in [Assign::LeftSide, Assign::SideRight, Assign::MidSide] {
+            bases.push((2, bps, a));
+        }
+    }
+    for (ch, bps, assign) in bases {
+        let mk = |base: usize| {
+            let mut f = plain_frame((0..ch as usize).map(|c| crate::gspace::target(0, bps, c, 16, base, 0)).collect());
+            f.assign = assign.clone();
+            f
+        };
+        let mut spec = plain_stream(ch, bps, 48000, vec![mk(0), mk(16)]);
+        spec.md5 = Md5Spec::Zero;
+        let clean = match fgen::build(&spec) {
+            Ok(b) => b,
+            Err(_) => {
+                acc.dim("unbuildable", 1);
+                continue;
+            }
+        };
+        let cum = vec![16 * ch as usize, 32 * ch as usize];
+        // STREAMINFO body starts at byte 8: rate = 20 bits at body+10, channels-1 = 3 bits, bps-1 = 5 bits
+        let mut patches: Vec<(String, Vec<u8>)> = Vec::new();
+        let put = |b: &mut Vec<u8>, rate: u32, c: u8, d: u8| {
+            let v: u32 = (rate << 12) | ((c as u32 - 1) << 9) | ((d as u32 - 1) << 4);
+            let keep = b[21] & 0x0F;
+            b[18] = (v >> 24) as u8;
+            b[19] = (v >> 16) as u8;
+            b[20] = (v >> 8) as u8;
+            b[21] = (v as u8 & 0xF0) | keep;
+        };
+        for c2 in 1..=8u8 {
+            if c2 != ch {
+                let mut b = clean.bytes.clone();
+                put(&mut b, 48000, c2, bps);
+                patches.push((format!("channels {ch}->{c2}"), b));
+            }
+        }
+        for d2 in [4u8, 8, 12, 15, 16, 17, 20, 24, 25, 32] {
+            if d2 != bps {
+                let mut b = clean.bytes.clone();
+                put(&mut b, 48000, ch, d2);
+                patches.push((format!("depth {bps}->{d2}"), b));
+            }
+        }
+        for r2 in [44100u32, 47999, 48001, 96000, 4800, 1048575] {
+            let mut b = clean.bytes.clone();
+            put(&mut b, r2, ch, bps);
+            patches.push((format!("rate 48000->{r2}"), b));
+        }
+        // the builder's own STREAMINFO must be reproduced by `put` with the true values (guards the offsets used here)
+        let mut same = clean.bytes.clone();
+        put(&mut same, 48000, ch, bps);
+        if same != clean.bytes {
+            acc.notes.push(format!("machinery: C05 stage 3: STREAMINFO offsets do not reproduce the builder's header for {ch}ch/{bps}bit"));
+            continue;
+        }
+        for (what, bytes) in patches {
+            if !ctx.mine() {
+                continue;
+            }
+            acc.states += 1;
+            acc.executions += 1;
+            acc.transitions += 5;
+            match judge(&bytes, &clean.pcm, &cum, 0) {
+                None => acc.outcome(format!("info-contradiction:{}:reported", what.split(' ').next().unwrap())),
+                Some((c, d)) => {
+                    acc.outcome(format!("info-contradiction:{}:{}", what.split(' ').next().unwrap(), c.split('|').next().unwrap()));
+                    acc.violation(format!("C05|streaminfo-contradiction|{}|{c}", what.split(' ').next().unwrap()), format!("{ch}-channel {bps}-bit 48000 Hz frames ({assign:?}) behind a STREAMINFO patched to {what}: {d}"), json!({"kind":"malformed","bytes":hex(&bytes),"pcm":clean.pcm,"cum":cum,"bad_from":0,"what":what}));
+                }
+            }
+        }
+    }
 }
 
 pub fn replay(v: &Value) -> Option<(bool, String)> {
